@@ -173,4 +173,127 @@ theorem append_sep_inj (sep : Char) {a a' b b' : Str} (hb : sep ∉ b) (hb' : se
   have := key b.reverse b'.reverse a.reverse a'.reverse (by simpa using hb) (by simpa using hb') h2
   exact ⟨by simpa using this.2, by simpa using this.1⟩
 
+/-! ### Helper lemmas about the model functions (not counted as obligations) -/
+
+theorem firstAuth_some {results : List (Option (List Str))} {ids : List Str}
+    (h : authenticate.firstAuth results = some (some ids)) : ids ≠ [] ∧ some ids ∈ results := by
+  induction results with
+  | nil => simp [authenticate.firstAuth] at h
+  | cons r rest ih =>
+    cases r with
+    | none =>
+      simp only [authenticate.firstAuth] at h
+      exact ⟨(ih h).1, List.mem_cons_of_mem _ (ih h).2⟩
+    | some l =>
+      simp only [authenticate.firstAuth] at h
+      split at h
+      · rename_i hne
+        cases h
+        exact ⟨hne, List.mem_cons_self⟩
+      · exact ⟨(ih h).1, List.mem_cons_of_mem _ (ih h).2⟩
+
+theorem firstAuth_ne_nil (results : List (Option (List Str))) : authenticate.firstAuth results ≠ some none := by
+  induction results with
+  | nil => simp [authenticate.firstAuth]
+  | cons r rest ih =>
+    cases r with
+    | none => simpa [authenticate.firstAuth] using ih
+    | some l =>
+      simp only [authenticate.firstAuth]
+      split
+      · simp
+      · exact ih
+
+theorem rtype_str_no_slash (t : RType) : '/' ∉ t.str ∧ '/' ∉ t.kindStr := by
+  cases t <;> decide
+
+theorem rtype_str_inj {t t' : RType} (h : t.str = t'.str) : t = t' := by
+  cases t <;> cases t' <;> first | rfl | (revert h; decide)
+
+theorem extractRoot_no_key {d : SecretData} {v : Val} (h : extractRoot d = some v) : v.hasKey = false := by
+  unfold extractRoot at h
+  split at h
+  · cases h; rfl
+  · split at h
+    · cases h; rfl
+    · cases h
+
+theorem firstSome_some {cfgId : Str} {f : Cluster → Bool → Option Val} {l : List Cluster} {v : Val}
+    (h : firstSome cfgId f l = some v) : ∃ c ∈ l, f c (c.id = cfgId) = some v := by
+  induction l with
+  | nil => simp [firstSome] at h
+  | cons c cs ih =>
+    unfold firstSome at h
+    cases hf : f c (decide (c.id = cfgId)) with
+    | some x =>
+      rw [hf] at h
+      cases h
+      exact ⟨c, List.mem_cons_self, hf⟩
+    | none =>
+      rw [hf] at h
+      obtain ⟨c', hc', h'⟩ := ih h
+      exact ⟨c', List.mem_cons_of_mem _ hc', h'⟩
+
+/-- The controller `generate` reads from. -/
+def sel (r : SR) (pa ca : Agg) : Agg :=
+  match r.rtype with
+  | .gateway | .configmap => ca
+  | _ => pa
+
+theorem genVal_sel (w : World) (r : SR) (pa ca : Agg) :
+    genVal w r pa ca = genVal w r (sel r pa ca) (sel r pa ca) := by
+  unfold genVal sel
+  cases r.rtype <;> rfl
+
+/-- `generate` once the controller is chosen. -/
+def genFrom (w : World) (r : SR) (ctl : Agg) : Option Val :=
+  if r.rtype = .configmap then
+    firstSome w.configCluster (fun c isCfg => c.getConfigMapCaCert isCfg r.name r.ns) ctl.controllers
+  else if hasSuffix r.name cacertSuffix then
+    firstSome w.configCluster (fun c _ => c.getCaCert r.name r.ns) ctl.controllers
+  else
+    firstSome w.configCluster (fun c _ => c.getCertInfo r.name r.ns) ctl.controllers
+
+theorem genVal_same (w : World) (r : SR) (ctl : Agg) : genVal w r ctl ctl = genFrom w r ctl := by
+  unfold genVal genFrom
+  cases r.rtype <;> rfl
+
+theorem findCluster_some {id : Str} {cs : List Cluster} {c : Cluster} (h : findCluster id cs = some c) :
+    c ∈ cs ∧ c.id = id := by
+  induction cs with
+  | nil => simp [findCluster] at h
+  | cons x xs ih =>
+    unfold findCluster at h
+    split at h
+    · cases h; rename_i hx; exact ⟨List.mem_cons_self, hx⟩
+    · obtain ⟨h1, h2⟩ := ih h; exact ⟨List.mem_cons_of_mem _ h1, h2⟩
+
+/-- `ForCluster`: the authorising controller is the proxy's own cluster; lookups go to the proxy's cluster
+    and the config cluster only. -/
+theorem forCluster_some {w : World} {id : Str} {a : Agg} (h : w.forCluster id = some a) :
+    findCluster id w.clusters = some a.auth ∧
+    ∀ c ∈ a.controllers, c ∈ w.clusters ∧ (c.id = id ∨ c.id = w.configCluster) := by
+  unfold World.forCluster at h
+  cases hf : findCluster id w.clusters with
+  | none => rw [hf] at h; cases h
+  | some c =>
+    rw [hf] at h
+    cases h
+    refine ⟨rfl, ?_⟩
+    intro x hx
+    simp only [List.mem_append] at hx
+    cases hx with
+    | inl hx =>
+      split at hx
+      · simp at hx; subst hx; exact ⟨(findCluster_some hf).1, Or.inl (findCluster_some hf).2⟩
+      · simp at hx
+    | inr hx =>
+      cases hg : findCluster w.configCluster w.clusters with
+      | none => rw [hg] at hx; simp at hx
+      | some k =>
+        rw [hg] at hx
+        simp at hx
+        subst hx
+        exact ⟨(findCluster_some hg).1, Or.inr (findCluster_some hg).2⟩
+
 end IstioModel.C11
